@@ -57,6 +57,11 @@ def variant(doc, idx):
         return doc + "é中\n", "non-ascii"
     if m == 4 and idx % 12 == 4:
         return doc.replace("\n", "\r"), "lone-cr"
+    if m == 5:
+        # characters that str.splitlines() treats as line boundaries but a text file reader does not
+        ch = ["\x0b", "\x0c", "\x1c", "\x1d", "\x1e", "\x85", "\u2028", "\u2029"][(idx // 6) % 8]
+        k = len(doc) // 2
+        return doc[:k] + ch + doc[k:], "odd-line-break-char"
     return doc, "as-is"
 
 
@@ -91,7 +96,19 @@ def run_items(items, job):
         p = sb.write_bytes("d.md", doc.encode("utf-8"))
         v = set()
         detail = {"doc": doc, "variant": vname}
-        base = app.scan_files([p])
+        # rule selection expressible both on the command line and through the API (every third document)
+        sel_e, sel_d = (["md002", "md006"], ["md041"]) if idx % 3 == 0 else ([], [])
+        sel_args = (["-e", ",".join(sel_e)] if sel_e else []) + (["-d", ",".join(sel_d)] if sel_d else [])
+
+        def api():
+            a = PyMarkdownApi().log_critical_and_above()
+            for r_ in sel_e:
+                a = a.enable_rule_by_identifier(r_)
+            for r_ in sel_d:
+                a = a.disable_rule_by_identifier(r_)
+            return a
+
+        base = app.scan_files([p], enable=sel_e or None, disable=sel_d or None)
         if base.watchdog or base.tokenization_error or base.plugin_error or (base.err and "Error" in base.errtext):
             R.skip("scan-error(C01/C07)")
             continue
@@ -99,19 +116,19 @@ def run_items(items, job):
         ref4 = [(f[1], f[2], f[3], f[6]) for f in base.failures]
         R.see("variants", vname)
         # in-process scan-stdin (string)
-        o = app.scan_text(doc)
+        o = app.scan_text(doc, enable=sel_e or None, disable=sel_d or None)
         if [(f[1], f[2], f[3], f[5], f[6]) for f in o.failures] != ref or o.rc != base.rc:
             v.add("stdin-string-vs-file")
             detail["stdin"] = o.fail_tuples()[:10]
         # API
         try:
-            r1 = PyMarkdownApi().log_critical_and_above().scan_string(doc)
+            r1 = api().scan_string(doc)
             R.count("api_calls")
             got = [(f.line_number, f.column_number, f.rule_id, f.rule_description, f.extra_error_information or "") for f in r1.scan_failures]
             if got != ref:
                 v.add("api-scan_string-vs-file")
                 detail["scan_string"] = got[:10]
-            r2 = PyMarkdownApi().log_critical_and_above().scan_path(p)
+            r2 = api().scan_path(p)
             R.count("api_calls")
             got = [(f.line_number, f.column_number, f.rule_id, f.rule_description, f.extra_error_information or "") for f in r2.scan_failures]
             if got != ref:
@@ -121,12 +138,12 @@ def run_items(items, job):
             detail["api_exception"] = str(e)[:200]
         # real processes (subset: process start-up is 0.6 s)
         if idx % 8 == 0:
-            rc, out, err = app.cli(["--log-level", "CRITICAL", "scan", "d.md"], cwd=sb.cwd)
+            rc, out, err = app.cli(["--log-level", "CRITICAL"] + sel_args + ["scan", "d.md"], cwd=sb.cwd)
             R.count("cli_processes")
             if [(a, b, c) for a, b, c, _ in _parse_cli(out)] != [(a, b, c) for a, b, c, _ in ref4] or rc != base.rc:
                 v.add("cli-file-vs-inprocess")
                 detail["cli_file"] = [rc, out[:300], err[:200]]
-            rc, out, err = app.cli(["--log-level", "CRITICAL", "scan-stdin"], doc.encode("utf-8"), cwd=sb.cwd)
+            rc, out, err = app.cli(["--log-level", "CRITICAL"] + sel_args + ["scan-stdin"], doc.encode("utf-8"), cwd=sb.cwd)
             R.count("cli_processes")
             if [(a, b, c) for a, b, c, _ in _parse_cli(out)] != [(a, b, c) for a, b, c, _ in ref4] or rc != base.rc:
                 v.add("cli-stdin-vs-file")
@@ -138,7 +155,7 @@ def run_items(items, job):
         for extra in variants:
             extra = list(extra)
             R.count("diagnostic_variants")
-            od = app.invoke(extra + ["scan", p])
+            od = app.invoke(extra + sel_args + ["scan", p])
             if od.watchdog:
                 continue
             if [(f[1], f[2], f[3], f[6]) for f in od.failures] != ref4 or od.rc != base.rc or od.out != base.out:
@@ -146,10 +163,10 @@ def run_items(items, job):
             if os.path.exists(os.path.join(sb.cwd, "LOG")):
                 os.remove(os.path.join(sb.cwd, "LOG"))
         # fix: file vs fix_string
-        of, fixed = app.fix_text(sb, doc, name="e.md")
+        of, fixed = app.fix_text(sb, doc, name="e.md", enable=sel_e or None, disable=sel_d or None)
         if not app.fix_error_kind(of) and fixed is not None:
             try:
-                fr = PyMarkdownApi().log_critical_and_above().fix_string(doc)
+                fr = api().fix_string(doc)
                 R.count("api_calls")
                 want = sb.read("e.md").decode("utf-8")
                 # fix_string hands back text read in text mode; compare modulo the platform's newline translation only
@@ -163,7 +180,7 @@ def run_items(items, job):
                 v.add("fix_string-exception")
             j = (idx * 5 + 2) % len(DIAG)
             sb.write_bytes("g.md", doc.encode("utf-8"))
-            og = app.invoke(list(DIAG[j]) + ["fix", os.path.join(sb.cwd, "g.md")])
+            og = app.invoke(list(DIAG[j]) + sel_args + ["fix", os.path.join(sb.cwd, "g.md")])
             R.count("diagnostic_variants")
             if not og.watchdog and (sb.read("g.md") != sb.read("e.md") or og.rc != of.rc):
                 v.add("diagnostics-change-fix:" + "+".join(x for x in DIAG[j] if x.startswith("--")))
